@@ -28,6 +28,14 @@ type Lister interface {
 }
 
 type NotIface struct{}
+
+var Default Store
+
+var ErrNotFound error
+
+func Helper() {}
+
+const Limit = 3
 """
 OLD_SRC_IFACE = """package store
 
@@ -84,6 +92,8 @@ def scenarios():
     outs = ["store_moq.go", "a_moq.go", "zz/deep/store_moq.go"]
     for rm in (False, True):
         S.append(Scenario("stdout" + ("-rm" if rm else ""), out=None, rm=rm))
+        S.append(Scenario("notiface-ifacevar-stdout" + ("-rm" if rm else ""), out=None, rm=rm, args=("Store", "Default"),
+                          expect_gen_err=True))
         for out in outs:
             tag = out.replace("/", "_") + ("-rm" if rm else "")
             pkg = "deep" if "/" in out else ""
@@ -99,6 +109,11 @@ def scenarios():
                               prior="own", expect_gen_err=True))
             S.append(Scenario("notiface-" + tag, out=out, rm=rm, pkg=pkg, args=("NotIface",), prior="own",
                               expect_gen_err=True))
+            if out == "store_moq.go":
+                for nm, a in (("ifacevar", ("Store", "Default")), ("errvar", ("ErrNotFound",)),
+                              ("func", ("Helper", "Store")), ("const", ("Store", "Limit"))):
+                    S.append(Scenario("notiface-%s-%s" % (nm, tag), out=out, rm=rm, pkg=pkg, args=a, prior="own",
+                                      expect_gen_err=True))
             S.append(Scenario("badname-" + tag, out=out, rm=rm, pkg=pkg, args=("Store:bad-name",), prior="own",
                               expect_gen_err=True))
             S.append(Scenario("noargs-" + tag, out=out, rm=rm, pkg=pkg, args=(), prior="own"))
